@@ -25,14 +25,11 @@ WALLCAP = {'quick': 500, 'thorough': 3000}
 if os.environ.get('VERIF_DOM_BUDGET'): BUDGET = dict(BUDGET, quick=int(os.environ['VERIF_DOM_BUDGET']))    # development knob (sensitivity runs)
 
 ACTIVE_EXCLUSIONS = {
-    # C13 findings (same tree code)
-    'C13-self-insert', 'C13-normalize-empty-text', 'C13-substringData-count-overflow', 'C13-setAttributeNode-self',
+    # C13 findings (same tree code) 'C13-normalize-empty-text', 'C13-setAttributeNode-self',
     'C13-setAttributeNodeNS-self-inuse', 'C13-setAttributeNS-keeps-prefix', 'C13-setAttributeNS-prefixed-lookup',
-    'C13-document-fragment-partial-insert', 'C13-clone-firstchild-flag', 'C13-clone-attr-specified', 'C13-clone-loses-defaults',
+    'C13-document-fragment-partial-insert', 'C13-clone-attr-specified', 'C13-clone-loses-defaults',
     'C13-document-replaceChild-self', 'C13-setNamedItemNS-breaks-sort-order',
     # C14 findings
-    'C14-iterator-unstepped-removechild',
-    'C14-range-start-clamped-on-text-insert',
     'C14-range-selectNode-chardata',
     'C14-range-toString-comment-pi',
     'C14-deepnodelist-pool-collision',
@@ -105,8 +102,15 @@ def replay(case, ctx):
     ok, detail, h = run_case(case, ctx.executor('xv_dom'))
     return ok, detail
 
+ALL_EXCLUSION_IDS = frozenset(ACTIVE_EXCLUSIONS) | frozenset(x[:-5] for d in ('C13', 'C14') if os.path.isdir(os.path.join(xv.VERIF, 'regress-known', d))
+                                                         for x in os.listdir(os.path.join(xv.VERIF, 'regress-known', d)) if x.endswith('.json'))
+
 def classify(case, detail):
-    return None
+    """A generated case always carries the full exclusion list, so it can never fall into a known class.  A stored witness is the
+    same kind of case with exactly one exclusion id switched off: that id is the finding it demonstrates."""
+    missing = [i for i in ALL_EXCLUSION_IDS if i not in set(case.get('excl', []))]
+    mine = [i for i in missing if i.startswith(ID + '-')] or missing
+    return mine[0] if len(mine) == 1 else None
 
 def known_witnesses():
     out = []
